@@ -42,6 +42,7 @@ type Contract struct {
 	Lets     []Clause // Label = name
 	Modifies []string
 	ModAll   bool
+	NoSwallow bool // every error returned by a callee must make this function return a non-nil error
 	NoPanic  bool
 	Inline   bool
 	Pure     bool // callee has no side effects at all (modifies nothing)
@@ -94,6 +95,7 @@ type Lemma struct {
 
 type ContractSet struct {
 	GhostNames map[string]bool // every ghost variable named in a contract or spec file
+	Stable    []string // heap key prefixes changed only through contracts that name them (unknown callees cannot reach them)
 	Immutable []string // heap key prefixes "H|<pkgname>.<Type>|<field>" never written after construction
 	ByKey  map[string]*Contract // "pkgpath|key"
 	Specs  map[string]*SpecFunc
@@ -335,6 +337,19 @@ func (cs *ContractSet) loadFile(path, repoDir string) error {
 				return fmt.Errorf("%s:%d: spec %s: %v", path, lineNo, m[1], err)
 			}
 			cs.Specs[m[1]] = &SpecFunc{Name: m[1], Params: fieldsComma(m[2]), Body: ex, Text: m[3], Opaque: opaque}
+		case "stable":
+			cur, curLemma = nil, nil
+			for _, it := range fieldsComma(rest) {
+				i := strings.Index(it, ".")
+				if i < 0 {
+					return fmt.Errorf("%s:%d: stable Type.field", path, lineNo)
+				}
+				pn := pkgPath
+				if j := strings.LastIndex(pn, "/"); j >= 0 {
+					pn = pn[j+1:]
+				}
+				cs.Stable = append(cs.Stable, "H|"+pn+"."+it[:i]+"|"+it[i+1:])
+			}
 		case "immutable":
 			// immutable Type.field: set by the constructor only (checked), so no call changes it
 			cur, curLemma = nil, nil
@@ -459,6 +474,8 @@ func (cs *ContractSet) loadFile(path, repoDir string) error {
 				n, _ := strconv.Atoi(m[2])
 				cur.CallAsserts = append(cur.CallAsserts, CallAssert{Callee: m[1], N: n, Clause: c, After: true, Var: m[3]})
 				cs.GhostNames[m[3]] = true
+			case "noswallow":
+				cur.NoSwallow = true
 			case "nopanic":
 				cur.NoPanic = true
 			case "inline":
